@@ -16,11 +16,19 @@ pub fn run(tier: Tier) -> i32 {
     rep.vac("states_with_a_connection", (r.flags_seen & 1 != 0) as u64);
     r.found.retain(|f| f.violation.signature.starts_with("C05/") || f.violation.signature.starts_with("panic/"));
     rep.add_dfs("attacker-handshakes", 0, d, &r);
+    // from a non-initial state: a full one-slot server
+    let d2 = tier.pick(6, 8);
+    let w2 = HsWorld::new(super::hsworld::c05_full_fix());
+    let cfg2 = DfsCfg { depth: d2, threads: explore::threads(), wall_cap_s: tier.pick(100.0, 1500.0), max_signatures: 8 };
+    let mut r2 = explore::dfs(&w2, &cfg2);
+    r2.found.retain(|f| f.violation.signature.starts_with("C05/") || f.violation.signature.starts_with("panic/"));
+    rep.add_dfs("full-one-slot-server", 1, d2, &r2);
     rep.finish()
 }
 
 pub fn replay(j: &J) -> i32 {
-    let mut w = HsWorld::new(c05_fix());
+    let idx = j.get("scenario_index").and_then(|x| x.as_i()).unwrap_or(0);
+    let mut w = HsWorld::new(if idx == 1 { super::hsworld::c05_full_fix() } else { c05_fix() });
     let acts: Vec<usize> = j
         .get("actions")
         .and_then(|a| a.as_arr())
